@@ -205,7 +205,12 @@ fn run_stress(cap: usize, pushers: usize, per: usize, consumes: usize) -> String
             pushers * per, if bad.is_empty() { "-".to_string() } else { bad.join(",") })
 }
 
+// only this property's own yield sites take part in the schedule: instrumented code of other
+// properties reached from here (e.g. Key::get_hash under a registry lock) must pass through
+fn own_site(site: u32) -> bool { (1601..=1612).contains(&site) }
+
 fn main() {
+    sched::set_site_filter(Some(own_site));
     std::panic::set_hook(Box::new(|_| {}));
     let stdin = std::io::stdin();
     let stdout = std::io::stdout();
